@@ -33,6 +33,7 @@ func Run(m *mon.M) {
 	m.Stream("loop", m.N(6000, 600000), loopCase)
 	m.Stream("polyline", m.N(4000, 300000), polylineCase)
 	m.Stream("simple", m.N(30000, 2000000), simpleCase)
+	m.Stream("full", m.N(2000, 100000), fullCase)
 	m.Stream("hull", m.N(4000, 300000), hullCase)
 	m.Stream("subregion", m.N(4000, 300000), subregionCase)
 }
@@ -60,6 +61,60 @@ type bounds struct {
 //     class was a recorded finding until its cause, an asin near 1 in RectBounder, was repaired in /repo;
 //     it is kept so that a recurrence has its own fingerprint);
 //   - beyond-representation: everything else.
+// fullCase: the full region reached in every way the library offers - the full loop and polygon, the
+// complement of the empty polygon (Invert), a loop or polygon inverted twice over the full one, the full cap and
+// rectangle: every point of the sphere is a point of the region, so every bound must contain every probe.
+func fullCase(c *mon.Case) {
+	r := c.R
+	variants := map[string]bounds{}
+	add := func(name string, rg s2.Region) {
+		variants[name] = bounds{rect: rg.RectBound(), cap: rg.CapBound(), cells: rg.CellUnionBound()}
+	}
+	switch c.I % 6 {
+	case 0:
+		p := s2.PolygonFromLoops(nil)
+		p.Invert()
+		add("Polygon(empty).Invert()", p)
+	case 1:
+		p := s2.FullPolygon()
+		p.Invert()
+		p.Invert()
+		add("FullPolygon.Invert().Invert()", p)
+	case 2:
+		l := s2.EmptyLoop()
+		l.Invert()
+		add("EmptyLoop.Invert()", l)
+		add("PolygonFromLoops(inverted empty loop)", s2.PolygonFromLoops([]*s2.Loop{l}))
+	case 3:
+		add("FullLoop", s2.FullLoop())
+		add("FullPolygon", s2.FullPolygon())
+	case 4:
+		// a polygon that was used (queried) as a non-empty one, emptied by decoding an empty polygon into it is
+		// C15's business; here: the complement of a polygon decoded from the encoding of the empty polygon
+		var buf bytes.Buffer
+		s2.PolygonFromLoops(nil).Encode(&buf)
+		var q s2.Polygon
+		if q.Decode(bytes.NewReader(buf.Bytes())) == nil {
+			q.Invert()
+			add("decoded empty polygon.Invert()", &q)
+		}
+	default:
+		add("FullCap", s2.FullCap())
+		add("FullRect", s2.FullRect())
+	}
+	det := func() any { return map[string]any{"case": c.I % 6} }
+	for name, b := range variants {
+		for k := 0; k < 6; k++ {
+			p := gen.Uniform(r)
+			if k == 0 {
+				p = gen.Special(r)
+			}
+			checkProbe(c, name, b, p, "any-point-of-the-full-region", det)
+		}
+		c.Count("full.regions", 1)
+	}
+}
+
 func checkProbe(c *mon.Case, what string, b bounds, p s2.Point, kind string, det func() any) {
 	checkProbeEdge(c, what, b, p, kind, 2, 0, det)
 }
